@@ -303,6 +303,8 @@ def base_store(S, spec):
                 man['lease'] = ap['lease']
             if ap.get('traits'):
                 man['traits'] = list(ap['traits'])
+            if ap.get('affinity_limits'):
+                man['affinity_limits'] = dict(ap['affinity_limits'])
             b.seed('/scheduled/' + name, man, 5)
         for j in ap.get('recorded', []):
             ct = S.int('placement_ctime%d_%d' % (i, j), 10, 10 ** 5)
@@ -441,6 +443,12 @@ def apply_event(W, m, ev):
             S.require(S.z(newcap) < S.z(data['memory']))
         data['memory'] = newcap
         W.cap[SERVERS[j]] = newcap
+        b.nodes['/servers/' + SERVERS[j]][0] = data
+        _post(W, m, 'servers', [SERVERS[j]])
+    elif kind == 'server_reparent':   # the server record names another rack
+        j = ev[1]
+        data = dict(b.get('/servers/' + SERVERS[j]))
+        data['parent'] = ev[2]
         b.nodes['/servers/' + SERVERS[j]][0] = data
         _post(W, m, 'servers', [SERVERS[j]])
     elif kind == 'server_relabel':    # the server moves to another partition
